@@ -24,7 +24,7 @@ from pyvc.report import VENV_PY
 
 from checks.c09 import all_modules, offending
 
-LEVEL = "proof"
+LEVEL = "other"
 ROOTS = ["iodata.api.load_one", "iodata.api.load_many", "iodata.api.dump_one", "iodata.api.dump_many", "iodata.api.write_input", "iodata.__main__.convert", "iodata.__main__.main"]
 IMPURE = {"environ", "getenv", "getcwd", "time", "perf_counter", "random", "randint", "choice", "shuffle", "uniform", "normal", "rand", "randn", "default_rng", "now", "today", "urandom", "getpid", "listdir", "glob"}
 
@@ -83,6 +83,51 @@ def job_frame():
                 bad.append((k, d.lineno))
     led.record("C16.frame::no-mutable-default-argument", "frame", "refuted" if bad else "discharged", "ast", 0.0, detail=str(bad[:3]), witness={"functions": [str(b) for b in bad[:3]]} if bad else None)
     return {"ledger": led, "functions": len(an.funcs), "reachable": len(reach), "mutation_sites": n_sites}
+
+
+def _is_set_expr(e, setnames):
+    if isinstance(e, (ast.Set, ast.SetComp)):
+        return True
+    if isinstance(e, ast.Call) and isinstance(e.func, ast.Name) and e.func.id in ("set", "frozenset"):
+        return True
+    if isinstance(e, ast.Name) and e.id in setnames:
+        return True
+    if isinstance(e, ast.BinOp) and isinstance(e.op, (ast.Sub, ast.BitOr, ast.BitAnd, ast.BitXor)):
+        return _is_set_expr(e.left, setnames) or _is_set_expr(e.right, setnames)
+    return False
+
+
+def job_order():
+    """G3: no loop or comprehension iterates over a set.  The iteration order of a set of strings depends on the hash
+    seed of the interpreter (PYTHONHASHSEED), not on the arguments: the first error raised, the order of warnings or of
+    written items would differ between two fresh interpreters.  (sorted(<set>) is fine: its argument is not a loop.)"""
+    led = Ledger()
+    an = Analysis(all_modules()).run()
+    for k in sorted(an.funcs):
+        fi = an.funcs[k]
+        nodes = list(ast.walk(fi.node))
+        assigns = [(n.lineno, n.targets[0].id, n.value) for n in nodes if isinstance(n, ast.Assign) and len(n.targets) == 1 and isinstance(n.targets[0], ast.Name)]
+        loops, bad = 0, []
+        for n in nodes:
+            iters = []
+            if isinstance(n, (ast.For, ast.AsyncFor)):
+                iters.append(n.iter)
+            if isinstance(n, (ast.ListComp, ast.GeneratorExp, ast.DictComp)):
+                iters += [g.iter for g in n.generators]
+            for it in iters:
+                loops += 1
+                ln = it.lineno
+                # a name denotes a set at the loop when the last assignment to it before the loop binds a set expression
+                last = {}
+                for l, nm, v in sorted(assigns, key=lambda a: a[0]):
+                    if l < ln:
+                        last[nm] = v
+                names = {nm for nm, v in last.items() if _is_set_expr(v, set())}
+                if _is_set_expr(it, names):
+                    bad.append((ln, ast.unparse(it)[:60]))
+        if loops:
+            led.record(f"order@{k}::iterates-only-over-collections-whose-order-is-defined-by-the-arguments", "order", "refuted" if bad else "discharged", "ast", 0.0, detail="; ".join(f"line {ln}: for ... in {txt} (a set: order depends on the hash seed)" for ln, txt in bad[:4]), witness={"loops_over_sets": [f"line {ln}: {txt}" for ln, txt in bad[:4]]} if bad else None)
+    return {"ledger": led}
 
 
 BOUNDED = r"""
@@ -168,6 +213,65 @@ for order in orders:
     for pos, (k, d) in enumerate(out["res"]):
         cases += 1
         if d != ref[k]: fails.append(((CALLS[k][0], "after", [CALLS[j][0] for j in order[max(0, pos - 3):pos]]), "result depends on call history: " + CALLS[k][0])); break
+# the same failing / warning calls alone in fresh interpreters that differ only in their hash seed
+bad_json = os.path.join(tmp, "incomplete_input.json")
+open(bad_json, "w").write('{"schema_name": "qcschema_input", "schema_version": 1}')
+bad_mol = os.path.join(tmp, "incomplete_molecule.json")
+open(bad_mol, "w").write('{"schema_name": "qcschema_molecule", "schema_version": 2, "provenance": {}}')
+few_keys = os.path.join(tmp, "few_keys.json")
+open(few_keys, "w").write('{"symbols": ["H", "H"], "geometry": [0, 0, 0, 0, 0, 1.4], "molecular_charge": 0, "molecular_multiplicity": 1}')
+hs_code = "import sys, warnings\nfrom iodata import load_one\nwith warnings.catch_warnings(record=True) as w:\n    warnings.simplefilter('always')\n    try:\n        load_one(sys.argv[1], fmt='json_qcschema'); out = 'ok'\n    except Exception as exc:\n        out = type(exc).__name__ + ': ' + str(exc)\nprint(repr((out, [str(x.message) for x in w])))"
+for fn in (bad_json, bad_mol, few_keys):
+    outs = {}
+    for hseed in range(8):
+        cases += 1
+        p = subprocess.run([sys.executable, "-c", hs_code, fn], capture_output=True, text=True, env=dict(env, PYTHONHASHSEED=str(hseed)))
+        outs.setdefault(p.stdout.strip()[-300:], []).append(hseed)
+    if len(outs) > 1:
+        fails.append(((os.path.basename(fn), sorted(outs.items(), key=lambda kv: kv[1])[:3]), "the outcome of a call depends on the hash seed of the interpreter"))
+# two API calls on distinct files, interleaved from two threads in one fixed order (A enters, B enters, A leaves, B leaves)
+th_code = r'''
+import os, sys, tempfile, threading, warnings
+import numpy as np
+import iodata
+from iodata import IOData, dump_many, load_many, load_one, write_input
+PDB = os.path.join(os.path.dirname(iodata.__file__), "test", "data", "water_single_no_end.pdb")  # loading it emits one LoadWarning
+tmp = tempfile.mkdtemp()
+seen = []
+def hook(message, category, filename, lineno, file=None, line=None): seen.append(str(message))
+warnings.simplefilter("always"); warnings.showwarning = hook
+def count(func):
+    n0 = len(seen); func(); return len(seen) - n0
+ref_seq = count(lambda: load_one(PDB))
+ref_a = count(lambda: dump_many(load_many(PDB), os.path.join(tmp, "ref_a.xyz")))
+a_in, b_in, a_done = threading.Event(), threading.Event(), threading.Event()
+water = IOData(atnums=[8, 1, 1], atcoords=np.array([[0, 0, 0], [0, 0, 1.8], [1.8, 0, 0.0]]))
+result = {}
+def frames_a():
+    a_in.set(); b_in.wait(10)
+    yield from load_many(PDB)
+def atom_line_b(data, iatom):
+    if iatom == 0:
+        b_in.set(); a_done.wait(10)
+    return f"X {iatom}"
+def thread_a():
+    result["a"] = count(lambda: dump_many(frames_a(), os.path.join(tmp, "a.xyz"))); a_done.set()
+def thread_b():
+    a_in.wait(10); write_input(water, os.path.join(tmp, "b.com"), fmt="gaussian", atom_line=atom_line_b)
+ta, tb = threading.Thread(target=thread_a), threading.Thread(target=thread_b)
+ta.start(); tb.start(); ta.join(); tb.join()
+after_seq = count(lambda: load_one(PDB))
+__import__("shutil").rmtree(tmp, True)
+print(repr(dict(alone=(ref_a, ref_seq), threaded=result.get("a"), afterwards=after_seq, hook_kept=warnings.showwarning is hook)))
+'''
+cases += 1
+p = subprocess.run([sys.executable, "-c", th_code], capture_output=True, text=True, env=env)
+try:
+    t = eval(p.stdout.strip().splitlines()[-1])
+    if t["threaded"] != t["alone"][0] or t["afterwards"] != t["alone"][1] or not t["hook_kept"]:
+        fails.append((t, "two calls on distinct files interleaved from two threads: warnings are lost and the warnings machinery of the process stays altered"))
+except Exception as exc:
+    fails.append(((p.stdout[-200:], p.stderr[-300:]), "thread driver crashed"))
 sig = {}
 for f in fails: sig.setdefault(f[1], f)
 print(json.dumps(dict(cases=cases, nfails=len(fails), kinds={k: repr(v)[:400] for k, v in sig.items()}), default=str))
@@ -190,14 +294,38 @@ def run_bounded(chk):
         chk.add_bounded("histories", bound, res["cases"], [])
 
 
+REPLAY_HASHSEED = """
+import os, subprocess, sys, tempfile
+tmp = tempfile.mkdtemp()
+fn = os.path.join(tmp, "f.json")
+open(fn, "w").write({content!r})
+code = "import sys, warnings\\nfrom iodata import load_one\\nwith warnings.catch_warnings(record=True) as w:\\n    warnings.simplefilter('always')\\n    try:\\n        load_one(sys.argv[1], fmt='json_qcschema'); out = 'ok'\\n    except Exception as exc:\\n        out = type(exc).__name__ + ': ' + str(exc)\\nprint(repr((out, [str(x.message) for x in w])))"
+outs = {{}}
+for hseed in range(8):
+    p = subprocess.run([sys.executable, "-c", code, fn], capture_output=True, text=True, env=dict(os.environ, PYTHONHASHSEED=str(hseed)))
+    outs.setdefault(p.stdout.strip()[-300:], []).append(hseed)
+__import__("shutil").rmtree(tmp, True)
+for k, v in outs.items():
+    print("PYTHONHASHSEED in", v, "->", k)
+if len(outs) > 1:
+    print("REPRODUCED"); sys.exit(1)
+"""
+HASHSEED_FILES = {
+    "_parse_input_keys": '{"schema_name": "qcschema_input", "schema_version": 1}',
+    "_parse_output_keys": '{"schema_name": "qcschema_output", "schema_version": 2}',
+    "_parse_topology_keys": '{"symbols": ["H", "H"], "geometry": [0, 0, 0, 0, 0, 1.4], "molecular_charge": 0, "molecular_multiplicity": 1}',
+}
+
+
 def run(chk):
     chk.functions += ["every function of the iodata package (no write to module-level state)", "every function reachable from the five API functions and __main__ (purity)"]
     chk.trusted += ["provenance axioms as in C09", "module-level names are bound once at import (no `global` statement anywhere: checked)", "the standard library and numpy/scipy keep no history-dependent state that affects results"]
+    chk.functions += ["every function of the iodata package with a loop or comprehension (iteration order defined by the arguments)"]
     chk.assumptions += ["sequential histories only: G1/G2 remove every shared mutable state inside iodata, which is what makes call results independent of order and repetition"]
-    chk.not_covered += ["thread schedules (2..16 threads): contract-based verification as built here is silent on concurrency; warnings.catch_warnings in api._reissue_warnings is documented by CPython as not thread-safe -- this half of the property is NOT decided"]
+    chk.not_covered += ["thread schedules (2..16 threads): contract-based verification as built here is silent on concurrency; warnings.catch_warnings in api._reissue_warnings is documented by CPython as not thread-safe -- this half of the property is NOT decided; one fixed interleaving of two calls is replayed by the bounded driver (a recorded finding)"]
     # a dump that alters the object it was given makes the next call on that object depend on the history: the frame
     # obligations of the dump call graph (C09) are part of this property and are re-decided here
-    res = collect(chk, run_jobs([("checks.c16", "job_frame", {}), ("checks.c09", "job_frame", {})]))
+    res = collect(chk, run_jobs([("checks.c16", "job_frame", {}), ("checks.c16", "job_order", {}), ("checks.c09", "job_frame", {})]))
     for r in res:
         if "reachable" not in r:
             continue
@@ -205,5 +333,10 @@ def run(chk):
         chk.notes["functions_reachable_from_api"] = r.get("reachable")
         chk.notes["mutation_sites_checked"] = r.get("mutation_sites")
     run_bounded(chk)
+    for o in chk.ledger.obligations.values():
+        if o.status == "refuted" and o.name.startswith("order@"):
+            fn = o.name.split("::")[0].rsplit(".", 1)[-1]
+            if fn in HASHSEED_FILES:
+                chk.set_replay(o.name, REPLAY_HASHSEED.format(content=HASHSEED_FILES[fn]))
     chk.samples = [o.as_dict() for o in list(chk.ledger.obligations.values())[:6]]
     chk.notes["explanation"] = "C16: no function writes module-level state or reads mutable process state (provenance analysis over the whole package); sequential histories follow; thread schedules not decided"
